@@ -47,7 +47,7 @@ ASSUMPTIONS = [
     "lxml, CPython io buffering are trusted; SimFS is the stub for the raw file layer",
 ]
 COMPONENTS = {"real": ["partitura.io.exportmusicxml", "partitura.io.importmusicxml", "partitura.io.load_score", "partitura.score", "partitura.directions", "lxml", "CPython io.Buffered*/TextIOWrapper, zipfile sniffing"], "stub": ["raw file layer (SimFS)", "HTTP client (fake urlopen peer)", "tempfile naming", "independent MusicXML interpreter (model/ref_musicxml.py) as peer reader"]}
-PROBES = ("divisions_declared_out_of_time_order", "load_returned_despite_read_fault", "fault_in_flight", "acknowledged_after_overwrite", "reader_on_torn_file", "torn_file_accepted", "short_reads", "url_route", "filelike_route", "mid_measure_divs_change", "tie_over_barline", "unequal_chord", "retry_after_failed_save", "zip_sniff")
+PROBES = ("divisions_declared_out_of_time_order", "force_note_ids", "score_edited_by_setitem", "load_returned_despite_read_fault", "fault_in_flight", "acknowledged_after_overwrite", "reader_on_torn_file", "torn_file_accepted", "short_reads", "url_route", "filelike_route", "mid_measure_divs_change", "tie_over_barline", "unequal_chord", "retry_after_failed_save", "zip_sniff")
 
 ROUTES_W = ("path", "path", "filelike", "return")
 ROUTES_R = ("path", "load_score", "filelike", "url", "path", "mxl")
@@ -215,7 +215,7 @@ def generate(seed, tier, cfg):
         "workload": asc,
         "ops": ops,
         "faults": faults,
-        "knobs": {"chunk": k.choice((1, 7, 16, 512, 8192, 0)), "short_reads": k.choice((None, None, [1], [3, 1, 7], [64])), "bufsize": k.choice((-1, -1, 16, 1024)), "late_divs": k.random() < 0.3},
+        "knobs": {"chunk": k.choice((1, 7, 16, 512, 8192, 0)), "short_reads": k.choice((None, None, [1], [3, 1, 7], [64])), "bufsize": k.choice((-1, -1, 16, 1024)), "late_divs": k.random() < 0.3, "setitem": k.choice((None, None, None, 0, 1, 2)), "forced_ids": k.random() < 0.3},
     }
 
 
@@ -285,6 +285,7 @@ def execute(case, keep_log=False):
     import partitura as pt
     from partitura.io.importmusicxml import load_musicxml
     from partitura.io.exportmusicxml import save_musicxml
+    import partitura.score as S
 
     res = Result(keep_log)
     asc = case["workload"]
@@ -297,6 +298,27 @@ def execute(case, keep_log=False):
     score = build.build_score(asc, with_pages=True, set_ends=True, late_divs=bool(kn.get("late_divs")))
     if kn.get("late_divs") and any(len(p["qdivs"]) > 2 for p in asc["parts"]):
         res.probe("divisions_declared_out_of_time_order")
+    if kn.get("setitem") is not None and not asc.get("groups") and len(score.parts) >= 1:
+        # a Score edited through its container interface: it is created with another part in one position, and
+        # the real part is put there with score[i] = part
+        import copy as _copy
+        import partitura.score as S_
+
+        i = kn["setitem"] % len(score.parts)
+        decoy_ap = _copy.deepcopy(asc["parts"][i])
+        decoy_ap["name"] = "decoy"
+        decoy_ap["notes"] = decoy_ap["notes"][:1]
+        for n in decoy_ap["notes"]:
+            for key in ("tie_next", "tie_prev", "grace_next", "grace_prev"):
+                n.pop(key, None)
+            n["kind"] = "rest"
+        decoy_ap["slurs"], decoy_ap["tuplets"] = [], []
+        real = list(score.parts)
+        parts2 = list(real)
+        parts2[i] = build.build_part(decoy_ap)
+        score = S_.Score(parts2, id=asc.get("id"))
+        score[i] = real[i]
+        res.probe("score_edited_by_setitem")
     snapper = FP.Snapshotter()
     snap0 = snapper.snapshot(score)
     want_fp = fp_c03(score)
@@ -448,6 +470,25 @@ def execute(case, keep_log=False):
                     else:
                         for site, msg in fp_diff(want_fp, fp_c03(loaded)):
                             res.violation("R1-roundtrip", "load", msg, site=site)
+                        if kn.get("forced_ids") and not res.violations and not faulted:
+                            # a score obtained from the importer with force_note_ids=True (new ids for every note and
+                            # rest) is a score like any other: saved and loaded again it keeps those ids
+                            res.probe("force_note_ids")
+                            try:
+                                forced = load_musicxml(io.BytesIO(fs.get(path)), force_note_ids=True)
+                                again = load_musicxml(io.BytesIO(save_musicxml(forced)), force_note_ids=None)
+                                ids1 = [[(type(n).__name__, n.start.t, n.id) for n in sorted(p.iter_all(S.GenericNote, include_subclasses=True), key=lambda n: (n.start.t, str(n.id)))] for p in forced.parts]
+                                ids2 = [[(type(n).__name__, n.start.t, n.id) for n in sorted(p.iter_all(S.GenericNote, include_subclasses=True), key=lambda n: (n.start.t, str(n.id)))] for p in again.parts]
+                                if ids1 != ids2:
+                                    d = next(((a, b) for pa, pb in zip(ids1, ids2) for a, b in zip(pa, pb) if a != b), None)
+                                    res.violation("R1-roundtrip", "load", "a score loaded with force_note_ids=True does not keep its note ids through save and load: %s" % (d,), site="forced-ids")
+                            except Exception as e:
+                                import traceback
+
+                                tb = traceback.extract_tb(e.__traceback__)
+                                if not any("/partitura/" in f.filename for f in tb):
+                                    raise
+                                res.violation("R1-roundtrip", "load", "force_note_ids=True load / save / load raised %s: %s" % (type(e).__name__, e), site="forced-ids-raised")
                 elif state == "unknown":
                     res.probe("reader_on_torn_file")
                     if outcome == "loaded":
